@@ -163,19 +163,22 @@ def marker_dispatch(env, rep, rule):
     for p in ex.paths:
         sig = [t for t in p if not is_io_plumbing(t)]
         # the marker decision is the last integer-valued decision before the first call / returns
-        marker = None
+        plain = None
+        cmpd = None
         target = None
         for t in sig:
             if t[0] == "when":
-                if is_comparison(t[1]) and marker is not None:
-                    continue
-                marker = t
+                if is_comparison(t[1]):
+                    cmpd = t
+                else:
+                    plain = t
             elif t[0] == "call":
                 target = ("call", t[1])
                 break
             elif t[0] == "returns":
                 target = ("returns", t[1])
                 break
+        marker = plain if plain is not None else cmpd
         if marker is None or target is None:
             continue
         table.setdefault((marker[1], marker[2]), set()).add(target)
